@@ -608,6 +608,11 @@ impl TwistPoint {
             return self.clone();
         }
 
+        // the formulas below are the mixed addition (rhs affine, z2 = 1); use the full addition otherwise
+        if !z2.eq(&Fp2::one()) {
+            return twist_point_add_full(self, rhs);
+        }
+
         let mut t1 = z1.fp_sqr();
         let mut t2 = t1.fp_mul(&z1);
 
